@@ -23,7 +23,12 @@ struct Snap { std::vector<uint32_t> order; std::vector<uint64_t> nknots, naxes, 
 static void eqi(const std::string& l, long a, long b){ vs_prove_eq(vs_q(a, 1), vs_q(b, 1), l.c_str()); }
 static void eqh(const std::string& l, vr64 a, vr64 b){ vs_prove_eq(a, b, l.c_str()); }
 static Snap snap(ps_table& t, uint64_t nc){ Snap s; for (unsigned d = 0; d < ND; d++) { s.order.push_back(t.order[d]); s.nknots.push_back(t.nknots[d]); s.naxes.push_back(t.naxes[d]); s.strides.push_back(t.strides[d]); s.knots.push_back(t.knots[d]); s.ext.push_back(t.extents[d][0]); s.ext.push_back(t.extents[d][1]); s.periods.push_back(t.periods ? t.periods[d] : 0); } s.coef.assign(t.coefficients, t.coefficients + nc); return s; }
+#include <csignal>
+static sigjmp_buf crash_env; static volatile int crash_armed;
+static void on_crash(int sig){ if (crash_armed) { crash_armed = 0; siglongjmp(crash_env, sig); } signal(sig, SIG_DFL); raise(sig); }
+template<class F> static int guarded(F f){ int s = sigsetjmp(crash_env, 1); if (s) return s; crash_armed = 1; f(); crash_armed = 0; return 0; }
 int main(int argc, char** argv){
+  signal(SIGSEGV, on_crash); signal(SIGBUS, on_crash); signal(SIGABRT, on_crash);
   if (argc < 3) return 2;
   std::ifstream in(argv[1]); vs_open(argv[2]); std::string line; int ncase = 0, nerr = 0;
   while (std::getline(in, line)) {
@@ -49,7 +54,7 @@ int main(int argc, char** argv){
     bool isperm = p.size() == ND; if (isperm) { std::vector<bool> seen(ND, false); for (auto v : p) { if (v >= ND || seen[v]) { isperm = false; break; } seen[v] = true; } }
     int before = vm_live_blocks();
     std::vector<uint64_t> arg(p); arg.push_back(0);
-    ir_w_permute((char*)&t, (char*)arg.data(), p.size());
+    { int sg = guarded([&]{ ir_w_permute((char*)&t, (char*)arg.data(), p.size()); }); eqi(id + " permuteDimensions does not crash (out-of-bounds write into its scratch storage)", sg, 0); if (sg) { exc_pending = 0; continue; } }
     bool threw = exc_pending; exc_pending = 0;
     eqi(id + " rejected exactly when the argument is not a permutation", threw, !isperm);
     eqi(id + " all temporaries released", vm_live_blocks(), before);
